@@ -118,16 +118,26 @@ class MultiFunction(Generic[T, P]):
         with self._lock:
             best_key: T | None = None
             best_method: Method | None = None
-            for method_key, method in self._methods.items():
-                if self._is_a(key, method_key):
-                    if best_key is None or self._precedes(method_key, best_key):
-                        best_key, best_method = method_key, method
-                    if not self._precedes(best_key, method_key):
-                        raise runtime.RuntimeException(
-                            "Cannot resolve a unique method for dispatch value "
-                            f"'{key}'; '{best_key}' and '{method_key}' both match and "
-                            "neither is preferred"
-                        )
+            matching_keys = [
+                method_key
+                for method_key in self._methods.keys()
+                if self._is_a(key, method_key)
+            ]
+            for method_key in matching_keys:
+                if best_key is None or self._precedes(method_key, best_key):
+                    best_key = method_key
+                    best_method = self._methods.val_at(method_key)
+
+            # The choice is only ambiguous if the best candidate does not precede every
+            # other matching key. This can only be decided once all matching keys have
+            # been seen: two unrelated keys may both be dominated by a later one.
+            for method_key in matching_keys:
+                if method_key != best_key and not self._precedes(best_key, method_key):
+                    raise runtime.RuntimeException(
+                        "Cannot resolve a unique method for dispatch value "
+                        f"'{key}'; '{best_key}' and '{method_key}' both match and "
+                        "neither is preferred"
+                    )
 
             if best_method is None:
                 best_method = self._methods.val_at(self._default)
